@@ -203,6 +203,8 @@ def run(rep, tier):
     vs += [c09.cfg(P=P, adaptive=None, restart_script=True, restarting={'max_restarts': 2, 'restart_from_first_step': ff}, post_checks=('vf.props._hist:check_tiling',)) for P in (2, 3) for ff in (False, True)]
     # a detector that raises the restart flag in any convergence check, possibly while the step's predecessor still iterates
     vs += [c09.cfg(P=P, K=K, L=L, jac=jac, predict='pfasst_burnin' if L > 1 else None, nblocks=2, adaptive=None, restart_script=True, restart_early=True, restarting={'max_restarts': 2, 'restart_from_first_step': False}, post_checks=('vf.props._hist:check_tiling',)) for P, K, L in (((2, 2, 1), (3, 2, 1), (2, 2, 2)) if tier == 'quick' else ((2, 2, 1), (3, 2, 1), (2, 3, 1), (2, 2, 2), (3, 2, 2), (4, 2, 1))) for jac in (False, True)]
+    # a detector behind BasicRestarting in the control order: its flag is not passed on, so the flagged steps need not be the tail of the block
+    vs += [c09.cfg(P=P, jac=jac, adaptive=None, restart_script=True, restart_late=True, restarting={'max_restarts': 10, 'restart_from_first_step': False}, post_checks=('vf.props._hist:check_tiling',)) for P in (3, 4) for jac in (False, True)]
     # a second run() on the same controller, continued where the first (adaptive) one stopped: the inactive steps of
     # a partially filled last block keep their old step size, which the time set-up of the next run must cope with
     for P, tend in ((3, 'two_and_a_half'), (3, 'far')) + (((4, 'far'), (2, 'two_and_a_half')) if tier == 'thorough' else ()):
